@@ -329,3 +329,23 @@ func TestC14_Processes(t *testing.T) {
 		}
 	})
 }
+
+// diffAt shows two strings around their first difference.
+func diffAt(a, b string) string {
+	i := 0
+	for i < len(a) && i < len(b) && a[i] == b[i] {
+		i++
+	}
+	from := i - 80
+	if from < 0 {
+		from = 0
+	}
+	ea, eb := i+200, i+200
+	if ea > len(a) {
+		ea = len(a)
+	}
+	if eb > len(b) {
+		eb = len(b)
+	}
+	return fmt.Sprintf("first difference at byte %d:\n--- a: ...%s\n--- b: ...%s", i, a[from:ea], b[from:eb])
+}
